@@ -63,7 +63,9 @@ def role_of(host, events, upto, conf):
     return ROLE.get(host, "unknown-host")
 
 
-def signature(trace, idx, bad):
+def signature(trace, idx, bad, after_o1=False):
+    """after_o1: an O1 obligation was violated earlier in the same trace (credentials already went
+    through a handler keyed by a foreign host, so what follows is a consequence of that)."""
     events, conf = trace["events"], trace["scenario"].get("conf", {})
     ev = events[idx]
     if bad.startswith("O3"):
@@ -78,7 +80,8 @@ def signature(trace, idx, bad):
             via = "redirect"
         elif conf.get("op") in ("ext", "copyext") and conf.get("extHost") == to and conf.get("extSch") == ev["scheme"]:
             via = "external-url"
-        return "O2:cleartext-to-tls-%s:via-%s" % (ROLE.get(to, "host"), via)
+        whose = "own" if ev["owners"] == [to] and not after_o1 else "foreign"
+        return "O2:cleartext-to-tls-%s:via-%s:%s-credentials" % (ROLE.get(to, "host"), via, whose)
     m = re.match(r"O1 secret of (\S+) sent to", bad)
     owner = m.group(1) if m else "?"
     what = secret_kinds(ev.get("what", ""), owner)
@@ -205,11 +208,18 @@ def scan(ctx, traces):
     if reached < total + 1:
         stuck = index[reached - 1]      # an event without an enabled step: left to validate_batch
     rej = {}
-    for m in re.finditer(r'<<"REJECT", "(\d+)", (\d+), "((?:[^"\\]|\\.)*)">>', out):
-        ti, line, bad = int(m.group(1)), int(m.group(2)), m.group(3)
-        if index[line - 1][0] != ti:
-            raise vlib.ToolError("trace scan: REJECT line %d is not inside trace %d" % (line, ti))
-        rej[ti] = (index[line - 1][1], bad)
+    for kind in ("FIRST", "REJECT"):    # FIRST: what `bad` latched; REJECT: every violated obligation
+        for m in re.finditer(r'<<"%s", "(\d+)", (\d+), "((?:[^"\\]|\\.)*)">>' % kind, out):
+            ti, line, bad = int(m.group(1)), int(m.group(2)), m.group(3)
+            if index[line - 1][0] != ti:
+                raise vlib.ToolError("trace scan: %s line %d is not inside trace %d" % (kind, line, ti))
+            item = (index[line - 1][1], bad)
+            if kind == "FIRST":
+                rej[ti] = [item]
+            elif ti not in rej:
+                raise vlib.ToolError("trace scan: REJECT without FIRST for trace %d" % ti)
+            elif item not in rej[ti]:
+                rej[ti].append(item)
     ctx.cov["trace_states"] = ctx.cov.get("trace_states", 0) + res["distinct"]
     return rej, stuck
 
@@ -236,25 +246,28 @@ def run(ctx):
         vlib.log("C11: code under test: %s" % sw)
 
         # 1. exhaustive checks of the design spec
-        space = {"Confs": "AllConfs"} if thorough else {}
-        asis = write_cfg(ctx, "C11_mc_asis.cfg", "C11_mc_asis_rt.cfg", space)
-        fixed = write_cfg(ctx, "C11_mc_fixed.cfg", "C11_mc_fixed_rt.cfg", space)
-        where = "all 232 configurations" if thorough else "14 generator configurations"
-        mc = [ctx.tlc("AuthMC", asis, label="code as is, <=3 faults, %s: only the known leak mechanisms" % where,
-                      timeout=3000),
-              ctx.tlc("AuthMC", fixed, label="all repairs, <=3 faults, %s: no leak" % where, timeout=3000)]
+        mc = [ctx.tlc("AuthMC", "C11_mc_asis.cfg", timeout=3000, workers=8,
+                      label="code as is, <=3 faults, 14 generator configurations: only the known leak mechanisms"),
+              ctx.tlc("AuthMC", "C11_mc_fixed.cfg", timeout=3000, workers=8,
+                      label="all repairs, <=3 faults, 14 generator configurations: no leak")]
         if thorough:
+            wide = {"Confs": "AllConfs", "MaxFaults": 2}
+            mc.append(ctx.tlc("AuthMC", write_cfg(ctx, "C11_mc_asis.cfg", "C11_mc_asis_all.cfg", wide), timeout=3000,
+                              workers=8, label="code as is, <=2 faults, all 232 configurations"))
+            mc.append(ctx.tlc("AuthMC", write_cfg(ctx, "C11_mc_fixed.cfg", "C11_mc_fixed_all.cfg", wide), timeout=3000,
+                              workers=8, label="all repairs, <=2 faults, all 232 configurations: no leak"))
             for k in ("HonorsHost", "SchemeBound", "StripOnRedirect"):
                 one = write_cfg(ctx, "C11_mc_repair.cfg", "C11_mc_%s.cfg" % k, {k: "TRUE"})
-                mc.append(ctx.tlc("AuthMC", one, label="only %s, <=2 faults, all configurations: its class is gone" % k,
-                                  timeout=3000))
-            mc.append(ctx.tlc("AuthMC", "C11_mc_deep.cfg", label="core space, <=4 faults, code as is", timeout=3000))
+                mc.append(ctx.tlc("AuthMC", one, timeout=3000, workers=8,
+                                  label="only %s, <=3 faults, 14 configurations: its leak class is gone" % k))
+            mc.append(ctx.tlc("AuthMC", "C11_mc_deep.cfg", timeout=3000, workers=8,
+                              label="code as is, <=4 faults, 3 configurations, core alphabets"))
         lap("model checked")
         # 2. server scripts from the design spec with the switches of the code under test
         subst = {k: tla_bool(v) for k, v in sw.items()}
         gens = []
         if thorough:
-            plan = [("C11_gen_thorough.cfg", None, 4), ("C11_gen_sim.cfg", 12000, 1)]
+            plan = [("C11_gen_thorough.cfg", None, 4), ("C11_gen_mid.cfg", None, 4), ("C11_gen_sim.cfg", 12000, 1)]
         else:
             plan = [("C11_gen_quick.cfg", None, 4), ("C11_gen_sim.cfg", 1500, 1)]
         scns = []
@@ -325,26 +338,33 @@ def run(ctx):
                     "cmd": "tools/check C11 --replay <this file>"})
         reported.append(sig)
     # ... and every class of rejection is confirmed by a rejection under the invariant
-    by_sig = collections.OrderedDict()
-    for i, (ei, bad) in sorted(rej.items()):
+    by_sig = collections.OrderedDict()      # signature -> [(stream, event, text, is the first of its trace)]
+    for i, items in sorted(rej.items()):
         t = reps[i]
-        sig = signature(dict(t, events=t["full"]), ei, bad)
-        by_sig.setdefault(sig, []).append((i, ei, bad))
+        seen = set()
+        for n, (ei, bad) in enumerate(items):
+            sig = signature(dict(t, events=t["full"]), ei, bad,
+                            any(b.startswith("O1") and e < ei for e, b in items))
+            if sig not in seen:
+                seen.add(sig)
+                by_sig.setdefault(sig, []).append((i, ei, bad, n == 0))
     # confirmation under the stopping invariant: one trace per obligation, and one per class that is
-    # about to be reported as a violation (not matched by a known finding)
+    # about to be reported as a violation (not matched by a known finding); only the first violated
+    # obligation of a trace can stop TLC, later ones rest on the scan pass
     known = [k for k in ctx.load_known().get("findings", []) if k.get("property") == ctx.pid and k.get("status") == "known"]
     confirmed = 0
     seen_obl = set()
     for sig, lst in by_sig.items():
         is_known = any(re.fullmatch(k["signature"], sig) for k in known)
-        if not is_known or sig[:2] not in seen_obl:
+        firsts = [x for x in lst if x[3]]
+        if firsts and (not is_known or sig[:2] not in seen_obl):
             seen_obl.add(sig[:2])
-            i, ei, bad = lst[0]
+            i, ei, bad, _ = firsts[0]
             a, rj = ctx.validate_batch("AuthTrace", "C11_trace.cfg", [reps[i]], timeout=600)
             if not rj or rj[0]["line"] != ei:
                 raise vlib.ToolError("scan rejected %s at event %d (%s) but validation did not" % (reps[i]["id"], ei, bad))
             confirmed += 1
-        for i, ei, bad in lst:
+        for i, ei, bad, _ in lst:
             t = reps[i]
             for _ in members[i]:
                 ctx.report(sig, "%s at event %d (%s) of %s" % (bad, ei, json.dumps(t["events"][ei]), t["id"]),
@@ -355,8 +375,17 @@ def run(ctx):
     lap("validated")
 
     # 5. binding demo: the trace spec must reject corrupted copies of accepted traces
+    demo = "skipped (replay)"
     if not ctx.replay:
-        binding_demo(ctx, clean)
+        try:
+            binding_demo(ctx, clean)
+            demo = "4 corrupted copies of accepted traces rejected at the corrupted event"
+        except NoDemoBase as e:
+            # when (nearly) every trace is rejected there is nothing accepted to corrupt; the
+            # rejections themselves are then the result of this run
+            if not ctx.violations:
+                raise vlib.ToolError(str(e))
+            demo = "skipped: %s" % e
 
     kinds = set(json.dumps([[e["ev"], e.get("to"), e.get("scheme"), e.get("owners")] for e in t["events"]])
                 for t in reps)
@@ -380,7 +409,7 @@ def run(ctx):
         "exhaustive": False,
         "generators": gens, "tlc_scenarios": len(scns),
         "replayed_as_predicted_by_D": exact, "drift": drift, "drift_by_op": dict(drift_ops),
-        "driver_notes": dict(notes),
+        "driver_notes": dict(notes), "binding_demo": demo,
         "code_under_test_has_repairs": sw,
         "samples": sample,
         "entry_points": ["regclient.ManifestGet/Head/Put", "regclient.BlobGet/Head/Put", "regclient.ImageCopy "
@@ -405,13 +434,17 @@ def run(ctx):
     return "model_checking", cov, assumptions
 
 
+class NoDemoBase(Exception):
+    pass
+
+
 def binding_demo(ctx, clean):
     def find(pred):
         for t in clean:
             for i, e in enumerate(t["events"]):
                 if pred(t, i, e):
                     return t, i
-        raise vlib.ToolError("binding demo: no suitable accepted trace")
+        raise NoDemoBase("binding demo: no suitable accepted trace")
     demos = []
     # a secret that arrives at another host
     t, i = find(lambda t, i, e: e["ev"] == "msg" and e["to"] == "A" and e["owners"] == ["A"])
